@@ -17,6 +17,7 @@ ALPHABETS = {
     "A3210": [3.0, 2.0, 1.0, 0.0],
     "A001": [0.0, 0.0, 1.0],
     "Ahalf": [0.5, 0.5000001, 0.25],
+    "Asmall": [0.0, 0.01, 0.02],      # slopes stay below the floor M = 1 for many trials
 }
 
 # (kind, value): how a deviation replaces the default answer
@@ -135,6 +136,10 @@ def standard_plan(ctx, visitor, depths_quick=(8, 7, 6, 5, 5), depths_thorough=(1
                 for a in (("A013", "Am201") if th else ("A013",)):
                     cfg = dict(N=N, r=r, box=boxes[0])
                     tasks += list(tree_tasks(cfg, a, d, visitor, split=2 if d < 9 else 3, batch=bsz))
+    # values whose slopes stay below 1 (the estimate M rests on its floor), and a coarse evolvent density
+    for N in (((1, 2, 3) if th else (1, 2)) if extras else ()):
+        tasks += list(tree_tasks(dict(N=N, r=2.0, box=boxes[0]), "Asmall", depths[N - 1], visitor, split=2))
+        tasks += list(tree_tasks(dict(N=N, r=2.0, box=boxes[0], density=3), "A013", depths[N - 1], visitor, split=2))
     # a user Problem may hand back a new value holder instead of filling the one it was given
     for N in (((1, 2, 3) if th else (1, 2)) if extras else ()):
         cfg = dict(N=N, r=2.0, box=boxes[0], holder="fresh")
@@ -162,7 +167,7 @@ def standard_plan(ctx, visitor, depths_quick=(8, 7, 6, 5, 5), depths_thorough=(1
                     for h, b in (((200, 0), (80, 1), (40, 2), (14, 3)) if th else ((30, 2),)):
                         tasks += list(dev_tasks(cfg, h, b, visitor))
         if deep_runs:
-            for env, N in (("const", 1), ("stair", 1), ("sin", 1)) + ((("lin", 1), ("quad", 1), ("const", 2)) if th else ()):
+            for env, N in (("const", 1), ("stair", 1), ("sin", 1), ("sqrt", 1)) + ((("lin", 1), ("quad", 1), ("const", 2)) if th else ()):
                 cfg = dict(N=N, r=2.0, box="B0", env=env)
                 tasks += list(dev_tasks(cfg, 9000 if th else 4200, 0, visitor, batch=50))
         bl = BENCH12 if th else list(dict.fromkeys(ctx.pick(BENCH12, 6) + (["Hill:3"] if deep_runs else [])))
@@ -230,6 +235,7 @@ def describe(tasks):
             key = f"N={c['N']} r={c['r']} box={c.get('box')} V={t['alphabet_name']} depth={t['depth']}" + \
                   (" holder=fresh" if c.get("holder") else "") + (f" other={c['other']}" if c.get("other") else "") + \
                   (f" itersLimit={c['itersLimit']}" if c.get("itersLimit") else "") + \
+                  (f" density={c['density']}" if c.get("density") else "") + \
                   (f" batch={t['batch']}" if t.get("batch", 1) != 1 else "")
             trees[key] = trees.get(key, 0) + len(t["alphabet"]) ** (t["depth"] - len(t["prefix"]))
         else:
